@@ -1282,6 +1282,9 @@ SPECS["C10"]["theorems"] += [
     "Woodpile.Props.C10H.enc_streaming_liveBytes_partial",
     "Woodpile.Props.C10H.enc_streaming_liveBytes_prod_partial",
     "Woodpile.Props.C10H.dec_streaming_liveBytes_partial",
+    "Woodpile.Props.C10H.enc_streaming_footprint_small_partial",
+    "Woodpile.Props.C10H.enc_streaming_liveBytes_small_partial",
+    "Woodpile.Props.C10H.enc_streaming_liveBytes_small_prod_partial",
     "Woodpile.Props.C10H.drop_history_releases",
     "Woodpile.Props.C10H.drop_perm_releases",
     "Woodpile.Props.C10H.handles_spec",
@@ -1295,7 +1298,9 @@ SPECS["C10"]["level_text"] += (' Props/C10H (track c10enc): the footprint on the
     'ENCODER (enc_streaming_footprint, all input methods): at every quiescent point (stableCount = some 0: nothing consumable, what a full drain leaves - '
     'full_drain_is_quiescent) the anchor deque has at most 3*(cur+mid)+2 anchors, cur+mid < the HCOBS chunk limit, hence at most 3*max(maxInit,maxSub) live '
     'chunks (production 192024) however much was streamed. The constant is NOT small and cannot be for anchored input: pinned `example`s stream 1-byte short '
-    'reads of encode_read(count = chunk size) and pin one arena chunk per byte of the open HCOBS chunk. DECODER (dec_streaming_footprint, all input methods): '
+    'reads of encode_read(count = chunk size) and pin one arena chunk per byte of the open HCOBS chunk. For BORROWED/COPIED input the potential argument of '
+    'C10.streaming_footprint goes through on the real run (Proofs/EncPotential; enc_streaming_footprint_small_partial): at most 2*cur/m0+2 anchors, '
+    '2*max(maxInit,maxSub)/m0+3 live chunks at every quiescent point - production 34 chunks and (enc_streaming_liveBytes_small_prod_partial) 34 MiB. DECODER (dec_streaming_footprint, all input methods): '
     'nothing is ever pending; after consume(k >= #slices) no slice and no anchor is left, only the cache\'s chunk can be live. Live BYTES (liveBytes = sum of the '
     'GReach capacity ghost over the live chunks): enc_/dec_streaming_liveBytes_partial - `_partial` = borrowed/copied input only: there the codec\'s world is a '
     'WOp history whose ghost is <= S on every chunk ever allocated (TuningBounds; production S = 2^20), so liveBytes <= #live * S (<= 3*max*S at encoder '
